@@ -27,6 +27,17 @@ theorem bind_def {α β : Type} (p : Parser α) (f : α → Parser β) (s : List
 
 theorem pure_def {α : Type} (a : α) (s : List Char) : (pure a : Parser α) s = .ok a s := rfl
 
+/-! ### the crate's error type in winnow's error protocol: what `SemverGen/Winnow.lean` assumes of it -/
+
+/-- `ParserError::from_error_kind`: the error of a failing primitive -/
+theorem err_from_error_kind (s : List Char) (k : Unit) : PErr.rs_from_error_kind s k = Winnow.errAt s := rfl
+/-- `ParserError::append` (used by `alt`, `repeat_till`): the input is replaced, context and kind are kept -/
+theorem err_append (e : PErr) (s : List Char) (a b : Unit) : e.rs_append s a b = { e with rest := s } := rfl
+/-- `AddContext::add_context` (used by `.context(..)`): the context is replaced, input and kind are kept -/
+theorem err_add_context (e : PErr) (s : List Char) (a : Unit) (c : String) : e.rs_add_context s a c = e.withCtx c := rfl
+/-- `FromExternalError::from_external_error` (used by `try_map`): the closure's error as it is -/
+theorem err_from_external_error (s : List Char) (k : Unit) (e : PErr) : PErr.rs_from_external_error s k e = e := rfl
+
 theorem isDecDigit_eq : Winnow.isDecDigit = isDigit := rfl
 theorem isSpace_eq : Winnow.isSpace = isBlank := rfl
 
